@@ -42,17 +42,18 @@ func defJSON(d *route.RouteDef) map[string]interface{} {
 		"weight": route.VerifRat(d.Weight), "tags": tags, "opts": opts}
 }
 
-func buildCustom(defs *[]route.RouteDef) (out map[string]interface{}) {
+func buildCustom(defs *[]route.RouteDef) (out map[string]interface{}, tbl route.Table) {
 	defer func() {
 		if p := recover(); p != nil {
 			out = map[string]interface{}{"panic": true, "panicText": fmt.Sprint(p)}
+			tbl = nil
 		}
 	}()
 	t, err := route.NewTableCustom(defs)
 	if err != nil {
-		return map[string]interface{}{"error": map[string]interface{}{"kind": "table", "what": errClass(err)}}
+		return map[string]interface{}{"error": map[string]interface{}{"kind": "table", "what": errClass(err)}}, nil
 	}
-	return map[string]interface{}{"table": route.VerifDump(t, false)}
+	return map[string]interface{}{"table": route.VerifDump(t, false)}, t
 }
 
 // runCustom retries a case whose child process failed for reasons of the test bed (no free port for the scripted
@@ -86,6 +87,7 @@ func runCustomOnce(raw json.RawMessage) (interface{}, error) {
 	o := newOracle()
 	steps := []interface{}{}
 	out := map[string]interface{}{}
+	var lastGood route.Table
 	for _, p := range in.Polls {
 		body := p.String()
 		cmd := map[string]interface{}{"op": "poll", "status": p.Status, "drop": p.Drop}
@@ -94,9 +96,9 @@ func runCustomOnce(raw json.RawMessage) (interface{}, error) {
 		} else {
 			cmd["body"] = p.Text
 		}
-		reply, cerr := c.call(cmd)
 		// what the document means, decoded into a fresh variable
 		step := map[string]interface{}{}
+		var tbl route.Table
 		switch {
 		case p.Drop || (p.Status != 0 && p.Status != 200):
 			step["decoded"] = map[string]interface{}{"httpError": true}
@@ -106,7 +108,7 @@ func runCustomOnce(raw json.RawMessage) (interface{}, error) {
 				step["decoded"] = map[string]interface{}{"decodeError": true}
 			} else if routes == nil {
 				step["decoded"] = map[string]interface{}{"null": true}
-				step["build"] = buildCustom(nil)
+				step["build"], _ = buildCustom(nil)
 			} else {
 				ds := []interface{}{}
 				for i := range *routes {
@@ -120,9 +122,17 @@ func runCustomOnce(raw json.RawMessage) (interface{}, error) {
 					}
 				}
 				step["decoded"] = map[string]interface{}{"defs": ds}
-				step["build"] = buildCustom(routes)
+				step["build"], tbl = buildCustom(routes)
 			}
 		}
+		// the table that must be active after this poll, and the requests looked up through main.go's closures then
+		exp := lastGood
+		if tbl != nil {
+			exp = tbl
+		}
+		probes := probesFor(exp, lastGood)
+		cmd["probe"] = probes
+		reply, cerr := c.call(cmd)
 		if cerr != nil {
 			out["crash"] = c.crash(cerr)
 			step["active"] = nil
@@ -130,13 +140,22 @@ func runCustomOnce(raw json.RawMessage) (interface{}, error) {
 			break
 		}
 		var rep struct {
-			Table json.RawMessage `json:"table"`
+			Table  json.RawMessage `json:"table"`
+			Served json.RawMessage `json:"served"`
 		}
 		if err := json.Unmarshal(reply, &rep); err != nil || rep.Table == nil {
 			out["crash"] = map[string]interface{}{"badReply": string(reply)}
 			break
 		}
 		step["active"] = rep.Table
+		if n, bad := checkServed(exp, probes, rep.Served); n > 0 || len(bad) > 0 {
+			sv := map[string]interface{}{"n": n}
+			if len(bad) > 0 {
+				sv["bad"] = bad
+			}
+			step["served"] = sv
+		}
+		lastGood = exp
 		steps = append(steps, step)
 	}
 	out["steps"] = steps
